@@ -462,6 +462,53 @@ static int replay()
 	return mc::ctx().violation_total ? 1 : 0;
 }
 
+// ---- prefactors at the ends of the double range: every output is the prefactor times the output for prefactor 1 -------------------------
+static void extreme_prefactors(unsigned long long& unit)
+{
+	std::vector<std::pair<std::vector<double>, std::vector<double>>> tabs = {
+		{{0, 1, 2, 3, 4}, {0, 5, -3, 5, 0}},
+		{{-2.5, -2.499, 0.5, 0.502, 7}, {1, -2, 0.25, 1, 3}},
+		{{0, 1e7, 2.5e7, 2.6e7}, {1, 3, 2, -4}},
+		{{1e-6, 2e-6, 2.5e-6, 4e-6, 4.1e-6, 9e-6}, {2, 2, -1, 0, 7, 7}},
+	};
+	for(size_t ti = 0; ti < tabs.size(); ti++)
+		for(double p : {1e300, -1e300, 1e-300, -1e-300, 1e280, -3e-290})
+		{
+			if(!mc::mine(unit++)) continue;
+			auto& x = tabs[ti].first;
+			Interpolation A(x, tabs[ti].second), B(x, tabs[ti].second);
+			B.Set_Prefactor(p);
+			std::vector<double> L;
+			for(size_t i = 0; i < x.size(); i++) { L.push_back(x[i]); if(i + 1 < x.size()) { L.push_back(x[i] + 0.3 * (x[i + 1] - x[i])); L.push_back(x[i] + 0.8 * (x[i + 1] - x[i])); } }
+			double scale = 0;
+			for(double y : tabs[ti].second) scale = std::max(scale, std::fabs(y));
+			std::string key = "table#" + std::to_string(ti) + ",prefactor=" + mc::dec(p);
+			auto cmp = [&](const std::string& what, double got, double base, double magnitude) {
+				mc::count("evaluations", 1);
+				mc::count("transitions", 1);
+				double want = p * base, tol = 64 * U_ * std::fabs(p) * magnitude;
+				if(!std::isfinite(got) || !(std::fabs(got - want) <= tol)) mc::violation("extreme_prefactor", "extreme_prefactor|" + key + "|" + what + "|not_prefactor_times_unit_result", what + " = " + mc::dec(got) + " but prefactor x (result for prefactor 1) = " + mc::dec(want), key + " " + what);
+			};
+			for(size_t i = 0; i < L.size(); i++)
+			{
+				cmp("Interpolate(" + mc::dec(L[i]) + ")", B.Interpolate(L[i]), A.Interpolate(L[i]), scale);
+				for(size_t j = 0; j < L.size(); j += 3)
+				{
+					double len = std::fabs(L[i] - L[j]);
+					cmp("Integrate(" + mc::dec(L[i]) + "," + mc::dec(L[j]) + ")", B.Integrate(L[i], L[j]), A.Integrate(L[i], L[j]), scale * (len + 0 * 1.0) * 4 + 1e-300 / std::fabs(p));
+					if(L[i] <= L[j])
+					{
+						double mn = A.Local_Minimum(L[i], L[j]), mx = A.Local_Maximum(L[i], L[j]);
+						cmp("Local_Minimum(" + mc::dec(L[i]) + "," + mc::dec(L[j]) + ")", B.Local_Minimum(L[i], L[j]), p > 0 ? mn : mx, scale);
+						cmp("Local_Maximum(" + mc::dec(L[i]) + "," + mc::dec(L[j]) + ")", B.Local_Maximum(L[i], L[j]), p > 0 ? mx : mn, scale);
+					}
+				}
+			}
+			cmp("Global_Minimum", B.Global_Minimum(), p > 0 ? A.Global_Minimum() : A.Global_Maximum(), scale);
+			cmp("Global_Maximum", B.Global_Maximum(), p > 0 ? A.Global_Maximum() : A.Global_Minimum(), scale);
+		}
+}
+
 int main(int argc, char** argv)
 {
 	mc::init(argc, argv);
@@ -488,6 +535,7 @@ int main(int argc, char** argv)
 		tables_part(5, H_RED, Y_RED, {0.0}, 6, true, unit, "N5");
 		tables_part(6, H_RED, Y_RED4, {-2.5}, 3, false, unit, "N6");
 	}
+	extreme_prefactors(unit);
 	global_2d(unit);
 	return mc::finish();
 }
